@@ -104,9 +104,11 @@ def cents_ok(reported, exact):
         return False
     if r != r:
         return False
-    if abs(r - float(exact)) > 0.005 + 1e-9:
+    # half a cent, plus float resolution at the magnitude of the amount (a balance of tens of millions
+    # is only representable to ~1e-8; an exact tie ...555 may round either way)
+    if abs(r - float(exact)) > 0.005 + 1e-9 * max(1.0, abs(float(exact))):
         return False
-    return abs(r * 100 - round(r * 100)) < 1e-6
+    return abs(r * 100 - round(r * 100)) < max(1e-6, abs(r * 100) * 1e-12)
 
 
 class StubDataHandler(object):
